@@ -17,77 +17,187 @@ def watchKeyNew (q : Q) (c : Nat) (s : State) (k : Key) : State :=
   (s.setTracker (s.conn c).db (shardOf k) ((s.tracker (s.conn c).db (shardOf k)).register k).1).setConn c
     (watchConn q (s.conn c) k ((s.tracker (s.conn c).db (shardOf k)).register k).2)
 
-theorem watchKey_cases (q : Q) (c : Nat) (s : State) (k : Key) :
-    watchKey q c s k = s ∨ watchKey q c s k = watchKeyNew q c s k := by
+/-! the purge of the `watchPurges` variant is the sweeper's deletion -/
+
+/-- is the stored entry past its deadline? -/
+def expiredNow (s : State) (d : Nat) (k : Key) (now : Nat) : Bool :=
+  match s.entry d k with
+  | some e => e.expired now
+  | none => false
+
+theorem sweepKey_not_expired (s : State) (d : Nat) (k : Key) (m : Bool) (now : Nat)
+    (h : expiredNow s d k now = false) : sweepKey s d k m now = s := by
+  unfold expiredNow at h
+  unfold sweepKey
+  split
+  · rename_i e he
+    rw [he] at h
+    simp only at h
+    simp [h]
+  · rfl
+
+@[simp] theorem conns_purge (q : Q) (s : State) (d : Nat) (k : Key) (now : Nat) :
+    (purgeAtWatch q s d k now).conns = s.conns := by
+  unfold purgeAtWatch; split <;> simp
+
+@[simp] theorem conn_purge (q : Q) (s : State) (d : Nat) (k : Key) (now : Nat) (c : Nat) :
+    (purgeAtWatch q s d k now).conn c = s.conn c := by
+  unfold State.conn; rw [conns_purge]
+
+@[simp] theorem active_purge (q : Q) (s : State) (d : Nat) (k : Key) (now : Nat) (d' sh' : Nat) :
+    (purgeAtWatch q s d k now).active d' sh' = s.active d' sh' := by
+  unfold purgeAtWatch; split <;> simp
+
+theorem grows_purge (q : Q) (s : State) (d : Nat) (k : Key) (now : Nat) : Grows s (purgeAtWatch q s d k now) := by
+  unfold purgeAtWatch
+  split
+  · exact grows_sweepKey s d k true now
+  · exact Grows.refl s
+
+/-- the purge leaves `(d', k')` alone unless it is the purged key, purging is on and the entry is expired -/
+theorem purge_untouched (q : Q) (s : State) (d : Nat) (k : Key) (now : Nat) (d' : Nat) (k' : Key)
+    (h : ¬ (q.watchPurges = true ∧ (d, k) = (d', k') ∧ expiredNow s d' k' now = true)) :
+    (purgeAtWatch q s d k now).counter d' k' = s.counter d' k' ∧ (purgeAtWatch q s d k now).entry d' k' = s.entry d' k' := by
+  unfold purgeAtWatch
+  by_cases hp : q.watchPurges = true
+  · simp only [hp, if_true]
+    by_cases e : (d, k) = (d', k')
+    · have hx : expiredNow s d' k' now = false := by
+        cases hh : expiredNow s d' k' now
+        · rfl
+        · exact absurd ⟨hp, e, hh⟩ h
+      simp only [Prod.mk.injEq] at e
+      obtain ⟨e1, e2⟩ := e
+      subst e1; subst e2
+      rw [sweepKey_not_expired s d k true now hx]
+      exact ⟨rfl, rfl⟩
+    · exact sweepKey_untouched s d k true now d' k' e
+  · simp only [hp]
+    exact ⟨rfl, rfl⟩
+
+theorem purge_changed_marks (q : Q) (s : State) (d : Nat) (k : Key) (now : Nat)
+    (hch : (purgeAtWatch q s d k now).entry d k ≠ s.entry d k) (ha : s.active d (shardOf k) ≠ 0) :
+    (s.tracker d (shardOf k)).global < (purgeAtWatch q s d k now).counter d k := by
+  unfold purgeAtWatch at hch ⊢
+  split
+  · rename_i hp
+    simp only [hp, if_true] at hch
+    exact sweepKey_changed_marks s d k now hch ha
+  · rename_i hp
+    simp only [hp] at hch
+    exact absurd rfl hch
+
+theorem watchKey_cases (q : Q) (c : Nat) (now : Nat) (s : State) (k : Key) :
+    watchKey q c now s k = s ∨
+    watchKey q c now s k = watchKeyNew q c (purgeAtWatch q s (s.conn c).db k now) k := by
   unfold watchKey watchKeyNew watchConn
-  simp only []
+  simp only [conn_purge]
   split
   · exact Or.inl rfl
   · exact Or.inr rfl
 
-theorem grows_watchKey (q : Q) (c : Nat) (s : State) (k : Key) : Grows s (watchKey q c s k) := by
-  rcases watchKey_cases q c s k with h | h
+theorem grows_watchKeyNew (q : Q) (c : Nat) (s : State) (k : Key) : Grows s (watchKeyNew q c s k) := by
+  unfold watchKeyNew
+  exact (grows_setTracker_same s (s.conn c).db (shardOf k) ((s.tracker (s.conn c).db (shardOf k)).register k).1
+    rfl (fun _ => rfl)).trans (grows_setConn _ _ _)
+
+theorem counter_watchKeyNew (q : Q) (c : Nat) (s : State) (k : Key) (d : Nat) (k' : Key) :
+    (watchKeyNew q c s k).counter d k' = s.counter d k' := by
+  unfold watchKeyNew
+  rw [counter_setConn]
+  exact counter_setTracker_same s (s.conn c).db (shardOf k) ((s.tracker (s.conn c).db (shardOf k)).register k).1
+    (fun _ => rfl) d k'
+
+theorem entry_watchKeyNew (q : Q) (c : Nat) (s : State) (k : Key) (d : Nat) (k' : Key) :
+    (watchKeyNew q c s k).entry d k' = s.entry d k' := rfl
+
+theorem global_watchKeyNew (q : Q) (c : Nat) (s : State) (k : Key) (d sh : Nat) :
+    ((watchKeyNew q c s k).tracker d sh).global = (s.tracker d sh).global := by
+  unfold watchKeyNew
+  rw [tracker_setConn]
+  exact global_setTracker_same s (s.conn c).db (shardOf k) ((s.tracker (s.conn c).db (shardOf k)).register k).1 rfl d sh
+
+theorem grows_watchKey (q : Q) (c : Nat) (now : Nat) (s : State) (k : Key) : Grows s (watchKey q c now s k) := by
+  rcases watchKey_cases q c now s k with h | h
   · rw [h]; exact Grows.refl s
   · rw [h]
-    exact (grows_setTracker_same s (s.conn c).db (shardOf k) ((s.tracker (s.conn c).db (shardOf k)).register k).1
-      rfl (fun _ => rfl)).trans (grows_setConn _ _ _)
+    exact (grows_purge q s _ k now).trans (grows_watchKeyNew q c _ k)
 
-theorem counter_watchKey (q : Q) (c : Nat) (s : State) (k : Key) (d : Nat) (k' : Key) :
-    (watchKey q c s k).counter d k' = s.counter d k' := by
-  rcases watchKey_cases q c s k with h | h
-  · rw [h]
-  · rw [h]
-    unfold watchKeyNew
-    rw [counter_setConn]
-    exact counter_setTracker_same s (s.conn c).db (shardOf k) ((s.tracker (s.conn c).db (shardOf k)).register k).1
-      (fun _ => rfl) d k'
+/-- WATCH of `k0` leaves counter and entry of `(d, k)` alone unless it purges exactly that entry -/
+theorem watchKey_same (q : Q) (c : Nat) (now : Nat) (s : State) (k0 : Key) (d : Nat) (k : Key)
+    (h : ¬ (q.watchPurges = true ∧ ((s.conn c).db, k0) = (d, k) ∧ expiredNow s d k now = true)) :
+    (watchKey q c now s k0).counter d k = s.counter d k ∧ (watchKey q c now s k0).entry d k = s.entry d k := by
+  rcases watchKey_cases q c now s k0 with e | e
+  · rw [e]; exact ⟨rfl, rfl⟩
+  · rw [e, counter_watchKeyNew, entry_watchKeyNew]
+    exact purge_untouched q s (s.conn c).db k0 now d k h
 
-theorem entry_watchKey (q : Q) (c : Nat) (s : State) (k : Key) (d : Nat) (k' : Key) :
-    (watchKey q c s k).entry d k' = s.entry d k' := by
-  rcases watchKey_cases q c s k with h | h
-  · rw [h]
-  · rw [h]; rfl
-
-theorem conn_watchKey_other (q : Q) (c : Nat) (s : State) (k : Key) (c' : Nat) (h : c ≠ c') :
-    (watchKey q c s k).conn c' = s.conn c' := by
-  rcases watchKey_cases q c s k with e | e
+theorem conn_watchKey_other (q : Q) (c : Nat) (now : Nat) (s : State) (k : Key) (c' : Nat) (h : c ≠ c') :
+    (watchKey q c now s k).conn c' = s.conn c' := by
+  rcases watchKey_cases q c now s k with e | e
   · rw [e]
   · rw [e]; unfold watchKeyNew; rw [conn_setConn]; simp [h]
 
-theorem db_watchKey (q : Q) (c : Nat) (s : State) (k : Key) (c' : Nat) :
-    ((watchKey q c s k).conn c').db = (s.conn c').db := by
-  rcases watchKey_cases q c s k with e | e
+theorem db_watchKey (q : Q) (c : Nat) (now : Nat) (s : State) (k : Key) (c' : Nat) :
+    ((watchKey q c now s k).conn c').db = (s.conn c').db := by
+  rcases watchKey_cases q c now s k with e | e
   · rw [e]
   · rw [e]; unfold watchKeyNew; rw [conn_setConn]
     split
-    · rename_i h; subst h; rfl
-    · rfl
+    · rename_i h; subst h; simp [watchConn]
+    · simp
 
-def watchAll (q : Q) (c : Nat) (s : State) (keys : List Key) : State := keys.foldl (watchKey q c) s
+def watchAll (q : Q) (c : Nat) (now : Nat) (s : State) (keys : List Key) : State := keys.foldl (watchKey q c now) s
 
-theorem grows_watchAll (q : Q) (c : Nat) (s : State) (keys : List Key) : Grows s (watchAll q c s keys) := by
+theorem grows_watchAll (q : Q) (c : Nat) (now : Nat) (s : State) (keys : List Key) : Grows s (watchAll q c now s keys) := by
   induction keys generalizing s with
   | nil => exact Grows.refl s
   | cons k r ih =>
     simp only [watchAll, List.foldl_cons] at ih ⊢
-    exact (grows_watchKey q c s k).trans (ih _)
+    exact (grows_watchKey q c now s k).trans (ih _)
 
-theorem watchAll_same (q : Q) (c : Nat) (s : State) (keys : List Key) (d : Nat) (k' : Key) :
-    (watchAll q c s keys).counter d k' = s.counter d k' ∧ (watchAll q c s keys).entry d k' = s.entry d k' := by
+/-- does this WATCH purge the entry `(d, k)`? -/
+def watchTouches (q : Q) (s : State) (now : Nat) (c : Nat) (keys : List Key) (d : Nat) (k : Key) : Bool :=
+  q.watchPurges && decide ((s.conn c).db = d) && keys.contains k && expiredNow s d k now
+
+theorem watchAll_same (q : Q) (c : Nat) (now : Nat) (s : State) (keys : List Key) (d : Nat) (k : Key)
+    (h : watchTouches q s now c keys d k = false) :
+    (watchAll q c now s keys).counter d k = s.counter d k ∧ (watchAll q c now s keys).entry d k = s.entry d k := by
   induction keys generalizing s with
   | nil => exact ⟨rfl, rfl⟩
-  | cons k r ih =>
+  | cons k0 r ih =>
     simp only [watchAll, List.foldl_cons] at ih ⊢
-    have := ih (watchKey q c s k)
-    exact ⟨this.1.trans (counter_watchKey q c s k d k'), this.2.trans (entry_watchKey q c s k d k')⟩
+    have h0 : ¬ (q.watchPurges = true ∧ ((s.conn c).db, k0) = (d, k) ∧ expiredNow s d k now = true) := by
+      rintro ⟨hp, e, hx⟩
+      simp only [Prod.mk.injEq] at e
+      simp [watchTouches, hp, e.1, e.2, hx] at h
+    have h1 := watchKey_same q c now s k0 d k h0
+    have h2 : watchTouches q (watchKey q c now s k0) now c r d k = false := by
+      have hx : expiredNow (watchKey q c now s k0) d k now = expiredNow s d k now := by
+        unfold expiredNow; rw [h1.2]
+      unfold watchTouches at h ⊢
+      rw [db_watchKey, hx]
+      cases hp : q.watchPurges
+      · simp
+      · simp only [hp, Bool.true_and] at h ⊢
+        by_cases hd : (s.conn c).db = d
+        · simp only [hd, decide_true, Bool.true_and] at h ⊢
+          cases hxx : expiredNow s d k now
+          · simp
+          · simp only [hxx, Bool.and_true] at h ⊢
+            simp only [List.contains_cons, Bool.or_eq_false_iff] at h
+            exact h.2
+        · simp [hd]
+    have := ih (watchKey q c now s k0) h2
+    exact ⟨this.1.trans h1.1, this.2.trans h1.2⟩
 
-theorem conn_watchAll_other (q : Q) (c : Nat) (s : State) (keys : List Key) (c' : Nat) (h : c ≠ c') :
-    (watchAll q c s keys).conn c' = s.conn c' := by
+theorem conn_watchAll_other (q : Q) (c : Nat) (now : Nat) (s : State) (keys : List Key) (c' : Nat) (h : c ≠ c') :
+    (watchAll q c now s keys).conn c' = s.conn c' := by
   induction keys generalizing s with
   | nil => rfl
   | cons k r ih =>
     simp only [watchAll, List.foldl_cons] at ih ⊢
-    rw [ih, conn_watchKey_other q c s k c' h]
+    rw [ih, conn_watchKey_other q c now s k c' h]
 
 /-! ### UNWATCH: unregistering a list of entries -/
 
@@ -142,7 +252,7 @@ theorem global_unregAll (q : Q) (cn : Conn) (s : State) (ws : List W) (d sh : Na
 /-! ### `step` in terms of the folds above -/
 
 theorem step_watch (q : Q) (s : State) (now c : Nat) (keys : List Key) :
-    (step q s now (.watch c keys)).1 = if keys.isEmpty || (s.conn c).inTx then s else watchAll q c s keys := by
+    (step q s now (.watch c keys)).1 = if keys.isEmpty || (s.conn c).inTx then s else watchAll q c now s keys := by
   simp only [step, watchAll]
   split <;> rfl
 
@@ -200,7 +310,7 @@ theorem grows_step (q : Q) (s : State) (now : Nat) (ev : Ev) : Grows s (step q s
     rw [step_watch]
     split
     · exact Grows.refl s
-    · exact grows_watchAll q c s keys
+    · exact grows_watchAll q c now s keys
   | unwatch c =>
     rw [step_unwatch]
     exact (grows_unregAll q _ s _).trans (grows_setConn _ _ _)
@@ -271,7 +381,7 @@ theorem quiet_step (q : Q) (s : State) (now : Nat) (ev : Ev) (c : Nat) (h : quie
     rw [step_watch]
     split
     · exact ⟨rfl, Or.inr rfl⟩
-    · rw [conn_watchAll_other q c' s keys c hc]; exact ⟨rfl, Or.inr rfl⟩
+    · rw [conn_watchAll_other q c' now s keys c hc]; exact ⟨rfl, Or.inr rfl⟩
   | unwatch c' =>
     have hc : c' ≠ c := by simpa [quiet] using h
     rw [step_unwatch, conn_setConn]
@@ -360,6 +470,7 @@ def evTouches (q : Q) (s : State) (now : Nat) (d : Nat) (k : Key) (ev : Ev) : Bo
   (executed q s now ev).any (fun p => opTouches d k p.1 p.2) ||
     (match ev with
      | .sweep d' k' _ => decide (d' = d) && decide (k' = k)
+     | .watch c keys => !(keys.isEmpty || (s.conn c).inTx) && watchTouches q s now c keys d k
      | _ => false)
 
 def untouched (q : Q) (d : Nat) (k : Key) : State → List (Nat × Ev) → Bool
@@ -374,7 +485,9 @@ theorem step_untouched (q : Q) (s : State) (now : Nat) (ev : Ev) (d : Nat) (k : 
     rw [step_watch]
     split
     · exact ⟨rfl, rfl⟩
-    · exact watchAll_same q c s keys d k
+    · rename_i hc
+      simp only [evTouches, executed, List.any_nil, Bool.false_or, hc, Bool.not_false, Bool.true_and] at h
+      exact watchAll_same q c now s keys d k h
   | unwatch c =>
     rw [step_unwatch]
     refine ⟨?_, ?_⟩
@@ -490,6 +603,69 @@ theorem step_marks (q : Q) (s : State) (now : Nat) (ev : Ev) (d : Nat) (ko : Key
   rw [ht] at this
   exact this
 
+/-! ### WATCH that purges an expired entry (variant `watchPurges`) -/
+
+/-- no registration of this WATCH wraps the usize watcher count -/
+def safeWatch (q : Q) (c : Nat) (now : Nat) : State → List Key → Bool
+  | _, [] => true
+  | s, k :: r => decide (s.active (s.conn c).db (shardOf k) + 1 < two64) && safeWatch q c now (watchKey q c now s k) r
+
+theorem active_watchKeyNew (q : Q) (c : Nat) (s : State) (k : Key) (d sh : Nat) :
+    (watchKeyNew q c s k).active d sh =
+      if ((s.conn c).db, shardOf k) = (d, sh) then (s.active d sh + 1) % two64 else s.active d sh := by
+  unfold watchKeyNew
+  rw [active_setConn, active_setTracker]
+  split
+  · rename_i e
+    simp only [Prod.mk.injEq] at e
+    rw [register_active]
+    have : (s.tracker (s.conn c).db (shardOf k)).active = s.active (s.conn c).db (shardOf k) := rfl
+    rw [this, e.1, e.2]
+  · rfl
+
+theorem active_watchKey_ne_zero (q : Q) (c : Nat) (now : Nat) (s : State) (k : Key) (d sh : Nat)
+    (hs : s.active (s.conn c).db (shardOf k) + 1 < two64) (ha : s.active d sh ≠ 0) :
+    (watchKey q c now s k).active d sh ≠ 0 := by
+  rcases watchKey_cases q c now s k with e | e
+  · rw [e]; exact ha
+  · rw [e, active_watchKeyNew]
+    simp only [conn_purge, active_purge]
+    split
+    · rename_i e2
+      simp only [Prod.mk.injEq] at e2
+      rw [← e2.1, ← e2.2, Nat.mod_eq_of_lt hs]
+      omega
+    · exact ha
+
+theorem watchAll_changed_marks (q : Q) (c : Nat) (now : Nat) (s : State) (keys : List Key) (d : Nat) (k : Key)
+    (hk : TOk s) (hs : safeWatch q c now s keys = true)
+    (hch : (watchAll q c now s keys).entry d k ≠ s.entry d k) (ha : s.active d (shardOf k) ≠ 0) :
+    (s.tracker d (shardOf k)).global < (watchAll q c now s keys).counter d k := by
+  induction keys generalizing s with
+  | nil => exact absurd rfl hch
+  | cons k0 r ih =>
+    simp only [safeWatch, Bool.and_eq_true, decide_eq_true_eq] at hs
+    simp only [watchAll, List.foldl_cons] at ih hch ⊢
+    have hk1 : TOk (watchKey q c now s k0) := (grows_watchKey q c now s k0).tok hk
+    by_cases e : (watchKey q c now s k0).entry d k = s.entry d k
+    · rw [← e] at hch
+      have := ih (watchKey q c now s k0) hk1 hs.2 hch (active_watchKey_ne_zero q c now s k0 d (shardOf k) hs.1 ha)
+      exact Nat.lt_of_le_of_lt ((grows_watchKey q c now s k0).global d (shardOf k)) this
+    · have hmono := (grows_watchAll q c now (watchKey q c now s k0) r).counter hk1 d k
+      simp only [watchAll] at hmono
+      refine Nat.lt_of_lt_of_le ?_ hmono
+      rcases watchKey_cases q c now s k0 with h | h
+      · rw [h] at e; exact absurd rfl e
+      · rw [h, entry_watchKeyNew] at e
+        rw [h, counter_watchKeyNew]
+        by_cases hkey : ((s.conn c).db, k0) = (d, k)
+        · simp only [Prod.mk.injEq] at hkey
+          obtain ⟨e1, e2⟩ := hkey
+          rw [e1, e2] at e ⊢
+          exact purge_changed_marks q s d k now e ha
+        · have := purge_untouched q s (s.conn c).db k0 now d k (fun x => hkey x.2.1)
+          exact absurd this.2 e
+
 /-- every operation the event executes marks what it changes, and a sweep marks -/
 def evMarksOk (q : Q) (s : State) (now : Nat) (ev : Ev) : Bool :=
   (executed q s now ev).all (fun p => opMarksOk p.2) &&
@@ -501,7 +677,8 @@ def evMarksOk (q : Q) (s : State) (now : Nat) (ev : Ev) : Bool :=
     shard, the key's counter exceeds the shard's global counter of before the step -/
 theorem step_changed_marks (q : Q) (s : State) (now : Nat) (ev : Ev) (d : Nat) (k : Key) (hk : TOk s)
     (hok : evMarksOk q s now ev = true) (hch : (step q s now ev).1.entry d k ≠ s.entry d k)
-    (ha : s.active d (shardOf k) ≠ 0) :
+    (ha : s.active d (shardOf k) ≠ 0)
+    (hsw : ∀ c keys, ev = .watch c keys → safeWatch q c now s keys = true) :
     (s.tracker d (shardOf k)).global < (step q s now ev).1.counter d k := by
   by_cases ht : evTouches q s now d k ev = false
   · exact absurd (step_untouched q s now ev d k ht).2 hch
@@ -559,7 +736,13 @@ theorem step_changed_marks (q : Q) (s : State) (now : Nat) (ev : Ev) (d : Nat) (
       have := applyOps_changed_marks s0 (s.conn c').db ops' d k hk0 hok' hch ha0
       rw [htr] at this
       exact this
-    | watch c keys => simp [evTouches, executed] at ht
+    | watch c keys =>
+      rw [step_watch] at hch ⊢
+      split at hch
+      · exact absurd rfl hch
+      · rename_i hc
+        simp only [hc, if_false]
+        exact watchAll_changed_marks q c now s keys d k hk (hsw c keys rfl) hch ha
     | unwatch c => simp [evTouches, executed] at ht
     | multi c => simp [evTouches, executed] at ht
     | discard c => simp [evTouches, executed] at ht
